@@ -513,6 +513,10 @@ func (t *Table) InsertColumn(position int, data []string, width int) error {
 		return fmt.Errorf("数据行数(%d)超过表格行数(%d)", len(data), len(t.Rows))
 	}
 
+	if err := t.prepareColumnEdit(); err != nil {
+		return err
+	}
+
 	// 更新表格网格
 	newGridCol := TableGridCol{
 		W: fmt.Sprintf("%d", width),
@@ -567,6 +571,45 @@ func (t *Table) InsertColumn(position int, data []string, width int) error {
 	return nil
 }
 
+// prepareColumnEdit 在按列增删之前检查表格是否为规则网格：
+// 每行的单元格数必须与第一行相同且不含跨列合并（gridSpan），否则按物理下标
+// 操作会越界或删错单元格，此时返回错误且不修改表格。
+// 对于缺少 tblGrid（或网格列数与单元格数不一致）的规则表格，会补建网格。
+func (t *Table) prepareColumnEdit() error {
+	colCount := len(t.Rows[0].Cells)
+	for i := range t.Rows {
+		if len(t.Rows[i].Cells) != colCount {
+			return fmt.Errorf("第%d行有%d个单元格，与第一行的%d个不一致（存在合并单元格），无法按列操作", i, len(t.Rows[i].Cells), colCount)
+		}
+		for j := range t.Rows[i].Cells {
+			props := t.Rows[i].Cells[j].Properties
+			if props != nil && props.GridSpan != nil && props.GridSpan.Val != "" && props.GridSpan.Val != "1" {
+				return fmt.Errorf("单元格(%d,%d)跨多列，无法按列操作", i, j)
+			}
+		}
+	}
+
+	if t.Grid == nil {
+		t.Grid = &TableGrid{}
+	}
+	if len(t.Grid.Cols) != colCount {
+		cols := make([]TableGridCol, colCount)
+		for j := range cols {
+			if j < len(t.Grid.Cols) {
+				cols[j] = t.Grid.Cols[j]
+				continue
+			}
+			width := "0"
+			if props := t.Rows[0].Cells[j].Properties; props != nil && props.TableCellW != nil && props.TableCellW.W != "" {
+				width = props.TableCellW.W
+			}
+			cols[j] = TableGridCol{W: width}
+		}
+		t.Grid.Cols = cols
+	}
+	return nil
+}
+
 // AppendColumn 在表格末尾添加列
 func (t *Table) AppendColumn(data []string, width int) error {
 	colCount := 0
@@ -589,6 +632,10 @@ func (t *Table) DeleteColumn(colIndex int) error {
 
 	if colCount <= 1 {
 		return fmt.Errorf("表格至少需要保留一列")
+	}
+
+	if err := t.prepareColumnEdit(); err != nil {
+		return err
 	}
 
 	// 删除网格列
@@ -617,6 +664,10 @@ func (t *Table) DeleteColumns(startIndex, endIndex int) error {
 	deleteCount := endIndex - startIndex + 1
 	if colCount-deleteCount < 1 {
 		return fmt.Errorf("删除后表格至少需要保留一列")
+	}
+
+	if err := t.prepareColumnEdit(); err != nil {
+		return err
 	}
 
 	// 删除网格列范围
